@@ -38,7 +38,8 @@ class Task final {
 
   Task() noexcept = default;
   ~Task() noexcept {
-    if (Valid()) {
+    // Task that already completed (co_await Await(task)) just releases its Result, there is nothing to cancel
+    if (Valid() && !Ready()) {
       std::move(*this).Cancel();
     }
   }
